@@ -63,10 +63,40 @@ class InlineExecutor(concurrent.futures.ThreadPoolExecutor):
         return future
 
 
+class DelayedExecutor(concurrent.futures.ThreadPoolExecutor):
+    """A slow disk on the virtual clock: every submitted function takes effect `delay` virtual seconds after it was
+    submitted - whether or not the coroutine that waits for it is still interested (a worker thread cannot be recalled)."""
+
+    def __init__(self, loop: "VLoop", delay: float) -> None:
+        super().__init__(max_workers=1)
+        self.loop = loop
+        self.delay = delay
+        self.calls = 0
+
+    def submit(self, fn, /, *args, **kwargs):
+        self.calls += 1
+        future: concurrent.futures.Future = concurrent.futures.Future()
+
+        def run() -> None:
+            try:
+                result = fn(*args, **kwargs)
+            except BaseException as exc:  # noqa: BLE001
+                if not future.cancelled():
+                    future.set_exception(exc)
+            else:
+                if not future.cancelled():
+                    future.set_result(result)
+
+        future.set_running_or_notify_cancel()  # like a thread that has started: cancel() no longer stops it
+        self.loop.call_later(self.delay, run)
+        return future
+
+
 class VLoop(asyncio.SelectorEventLoop):
-    def __init__(self, *, inline_executor: bool = True, grace: float = 0.0) -> None:
+    def __init__(self, *, inline_executor: bool = True, grace: float = 0.0, executor_delay: float = 0.0) -> None:
         ref: list = [None]
         self.grace = grace
+        self.executor_delay = executor_delay
         self.vtime = 0.0
         self.iterations = 0
         self.deadlocks = 0
@@ -74,7 +104,10 @@ class VLoop(asyncio.SelectorEventLoop):
         ref[0] = self
         self.records: list[dict] = []
         self.set_exception_handler(self._record)
-        if inline_executor:
+        if executor_delay > 0:
+            self.inline = DelayedExecutor(self, executor_delay)
+            self.set_default_executor(self.inline)
+        elif inline_executor:
             self.inline = InlineExecutor()
             self.set_default_executor(self.inline)
 
@@ -86,10 +119,10 @@ class VLoop(asyncio.SelectorEventLoop):
                              "task": repr(context.get("task") or context.get("future"))[:200]})
 
 
-def run_virtual(coro_factory, *, inline_executor: bool = True, grace: float = 0.0):
+def run_virtual(coro_factory, *, inline_executor: bool = True, grace: float = 0.0, executor_delay: float = 0.0):
     """Run coro_factory() on a fresh VLoop; returns (result, loop).  LogicalDeadlock propagates as result.
     grace > 0: the loop serves real loopback sockets (see VSelector.select)."""
-    loop = VLoop(inline_executor=inline_executor, grace=grace)
+    loop = VLoop(inline_executor=inline_executor, grace=grace, executor_delay=executor_delay)
     asyncio.set_event_loop(loop)
     try:
         try:
